@@ -50,6 +50,9 @@ type Cfg struct {
 	T        int   `json:"t"`
 	Byz      []int `json:"byz"`
 	PhaseLen int   `json:"phaseLen"`
+	// Overlap: the previous (failing) eon of the keyper set is still in its apologising phase when the
+	// eon under test starts, so every keyper holds two active DKG objects for one block.
+	Overlap bool `json:"overlap,omitempty"`
 }
 
 func (c Cfg) IsByz(i int) bool {
@@ -155,7 +158,8 @@ type World struct {
 	toks   []string
 	privs  map[int]*ecdsa.PrivateKey
 	encs   map[int]*ecies.PrivateKey
-	polys  map[int]*shcrypto.Polynomial // the committed ("good") polynomial of every dealer
+	polys  map[int]*shcrypto.Polynomial // Byzantine dealers: the committed ("good") polynomial
+	gam    map[int]*shcrypto.Gammas     // every dealer: the commitment of the polynomial it dealt at eon start
 	poly2  map[int]*shcrypto.Polynomial // Byzantine: a second polynomial for repeated commitments
 	polyBD map[int]*shcrypto.Polynomial // Byzantine: polynomial of another degree
 	stage  int
@@ -251,12 +255,25 @@ func NewWorld(cfg Cfg, seed int64, lag int64) (*World, error) { return NewWorldH
 // NewWorldHold is NewWorld, except that keyper hold (if >0) has not yet applied the EonStarted
 // block (C08 starts its crash enumeration there).
 func NewWorldHold(cfg Cfg, seed int64, lag int64, hold int) (*World, error) {
+	return NewWorldOpts(cfg, seed, WorldOpts{Lag: lag, Hold: hold})
+}
+
+// WorldOpts: Hold = keyper that has not applied the EonStarted block yet; Late = Byzantine keyper
+// that has NOT checked in when the eon starts (LateCheckinTx makes its check-in).
+type WorldOpts struct {
+	Lag  int64
+	Hold int
+	Late int
+}
+
+func NewWorldOpts(cfg Cfg, seed int64, o WorldOpts) (*World, error) {
+	lag, hold := o.Lag, o.Hold
 	tmpl, err := template()
 	if err != nil {
 		return nil, err
 	}
 	w := &World{Cfg: cfg, Seed: seed, Nodes: map[int]*Node{}, privs: map[int]*ecdsa.PrivateKey{}, encs: map[int]*ecies.PrivateKey{},
-		polys: map[int]*shcrypto.Polynomial{}, poly2: map[int]*shcrypto.Polynomial{}, polyBD: map[int]*shcrypto.Polynomial{},
+		gam: map[int]*shcrypto.Gammas{}, polys: map[int]*shcrypto.Polynomial{}, poly2: map[int]*shcrypto.Polynomial{}, polyBD: map[int]*shcrypto.Polynomial{},
 		rng: rand.New(rand.NewSource(seed)), rl: make([]int, cfg.N), skip: make([]bool, cfg.N)}
 	keyord := []string{sm.NoVal}
 	for i := 1; i <= cfg.N; i++ {
@@ -291,6 +308,7 @@ func NewWorldHold(cfg Cfg, seed int64, lag int64, hold int) (*World, error) {
 				return p
 			}
 			w.polys[i], w.poly2[i], w.polyBD[i] = mk("byz", deg), mk("byz2", deg), mk("byzbd", deg+1)
+			w.gam[i] = w.polys[i].Gammas()
 			continue
 		}
 		eh := sha256.Sum256([]byte(fmt.Sprintf("verif-enc-%d-%d", i, seed)))
@@ -325,7 +343,10 @@ func NewWorldHold(cfg Cfg, seed int64, lag int64, hold int) (*World, error) {
 			}
 			continue
 		}
-		tx := w.U.Concretise(sm.Tx{K: "checkin", S: tokOf(i), N: uint64(900 + i), Key: fmt.Sprintf("v%d", i)})
+		if i == o.Late {
+			continue
+		}
+		tx := w.LateCheckinTx(i)
 		if chk, res, _ := w.Chain.Submit(tx); chk.Code != 0 || res.Code != 0 {
 			return nil, fmt.Errorf("prologue: check-in of k%d refused: %s %s", i, chk.Log, res.Log)
 		}
@@ -352,7 +373,11 @@ func NewWorldHold(cfg Cfg, seed int64, lag int64, hold int) (*World, error) {
 	if err := w.syncAll(); err != nil {
 		return nil, err
 	}
-	for w.Chain.Height() < first+int64(3*cfg.PhaseLen) {
+	silent := int64(3 * cfg.PhaseLen)
+	if cfg.Overlap {
+		silent -= 2 // the eon is restarted in the last block of the previous eon's apologising phase
+	}
+	for w.Chain.Height() < first+silent {
 		w.Chain.OpenBlock()
 		w.Chain.CloseBlock()
 		if err := w.syncAll(); err != nil {
@@ -394,17 +419,45 @@ func NewWorldHold(cfg Cfg, seed int64, lag int64, hold int) (*World, error) {
 		}
 	}
 	w.Chain.OpenBlock()
-	for i, n := range w.Nodes {
+	for i := range w.Nodes {
 		if i == hold {
 			continue
 		}
-		p := w.pure(n)
-		if p == nil || p.Polynomial == nil {
-			return nil, fmt.Errorf("prologue: keyper %d has no puredkg row after the EonStarted block", i)
-		}
-		w.polys[i] = p.Polynomial
+		// a row that is missing or does not decode is an observed behaviour of the keyper (judged by the
+		// monitors through the projection), not a harness problem
+		w.learn(i)
 	}
 	return w, nil
+}
+
+// learn finds out which polynomial honest keyper i dealt at the start of the eon: from its puredkg
+// row, or (if there is no decodable row) from the commitment it queued in the same transaction.
+func (w *World) learn(i int) {
+	n := w.Nodes[i]
+	if n == nil || w.gam[i] != nil {
+		return
+	}
+	if p := w.pure(n); p != nil && p.Polynomial != nil {
+		w.gam[i] = p.Polynomial.Gammas()
+		return
+	}
+	var rows []kprdb.TendermintOutgoingMessage
+	n.PG.View(func(db *fakepg.DB) { rows = append(rows, db.TendermintOutgoingMessages...) })
+	for _, r := range rows {
+		m := &shmsg.Message{}
+		if proto.Unmarshal(r.Msg, m) != nil || m.GetPolyCommitment() == nil || m.GetPolyCommitment().Eon != w.Eon {
+			continue
+		}
+		if pc, err := app.ParsePolyCommitmentMsg(m.GetPolyCommitment(), w.addr(i)); err == nil {
+			w.gam[i] = pc.Gammas
+			return
+		}
+	}
+}
+
+// LateCheckinTx is the check-in transaction of Byzantine keyper i.
+func (w *World) LateCheckinTx(i int) []byte {
+	return w.U.Concretise(sm.Tx{K: "checkin", S: tokOf(i), N: uint64(900 + i), Key: fmt.Sprintf("v%d", i)})
 }
 
 func (w *World) Close() {
@@ -556,7 +609,8 @@ func (w *World) gammaClass(sender int, g *shcrypto.Gammas) string {
 	if g.Degree() != shcrypto.DegreeFromThreshold(uint64(w.Cfg.T)) {
 		return "baddeg"
 	}
-	if p := w.polys[sender]; p != nil && g.Equal(*p.Gammas()) {
+	w.learn(sender)
+	if gm := w.gam[sender]; gm != nil && g.Equal(*gm) {
 		return "good"
 	}
 	if p := w.poly2[sender]; p != nil && g.Equal(*p.Gammas()) {
@@ -569,11 +623,12 @@ func (w *World) evalClass(dealer, receiver int, e *big.Int) string {
 	if e == nil || e.Sign() == 0 {
 		return "none"
 	}
-	p := w.polys[dealer]
-	if p == nil {
+	w.learn(dealer)
+	gm := w.gam[dealer]
+	if gm == nil {
 		return "other"
 	}
-	if p.EvalForKeyper(receiver-1).Cmp(e) == 0 {
+	if shcrypto.VerifyPolyEval(receiver-1, e, gm, uint64(w.Cfg.T)) {
 		return "ok"
 	}
 	return "bad"
@@ -783,8 +838,8 @@ func (w *World) qualOf(res *puredkg.Result) []bool {
 	for mask := 0; mask < 1<<n; mask++ {
 		var gs []*shcrypto.Gammas
 		for d := 0; d < n; d++ {
-			if mask&(1<<d) != 0 && w.polys[d+1] != nil {
-				gs = append(gs, w.polys[d+1].Gammas())
+			if mask&(1<<d) != 0 && w.gam[d+1] != nil {
+				gs = append(gs, w.gam[d+1])
 			} else {
 				gs = append(gs, shcrypto.ZeroGammas(deg))
 			}
@@ -949,7 +1004,7 @@ func (w *World) State() J {
 		}
 		backlog = append(backlog, J{"h": h, "evs": evs})
 	}
-	return J{"h": w.RelH(), "stage": w.stage, "rej": w.rej, "rl": append([]int{}, w.rl...), "lags": w.lags,
+	return J{"h": w.RelH(), "stage": w.stage, "rej": w.rej, "rl": append([]int{}, w.rl...), "lags": w.lags, "ov": w.Cfg.Overlap,
 		"skip": append([]bool{}, w.skip...), "sync": syncs, "backlog": backlog, "kp": kp, "app": w.absApp(), "blk": blk}
 }
 
